@@ -72,6 +72,9 @@ Definition set_tok (m : list nat) (s : bstate) : bstate :=
 Definition kdel (k : nat) (m : list (nat * nat)) : list (nat * nat) := filter (fun p => negb (Nat.eqb (fst p) k)) m.
 Definition lock_is_free (k : nat) (s : bstate) : bool := match nget k (klock s) with None => true | Some _ => false end.
 
+Definition lock_avail (k t : nat) (s : bstate) : bool :=
+  match nget k (klock s) with None => true | Some u => Nat.eqb u t end.
+
 (* ds/list: LPush pushes the values one by one at the head, RPush at the tail *)
 Definition push_vals (sd : side) (vs l : list Z) : list Z :=
   match sd with SL => rev vs ++ l | SR => l ++ vs end.
@@ -120,7 +123,8 @@ Definition step_run (t : nat) (s : bstate) : option bstate :=
                end
           else None
       | BMove a b, BMWait v =>
-          if lock_is_free b s
+          (* tx.go lockKey is reentrant within one command: RPOPLPUSH k k already holds k *)
+          if lock_avail b t s
           then Some (set_bth t (with_bpc x (BMNotify v))
                        (set_klock (nset b t (klock s)) (set_lists (nset b (v :: lget b (lists s)) (lists s)) s)))
           else None
@@ -191,12 +195,10 @@ Definition binit (ls : list (nat * list Z)) (cmds : list bcmd) : bstate :=
      bths := combine (seq 0 (length cmds))
                (map (fun c => {| b_cmd := c; b_pc := BStart; b_start := 0; b_deadline := 0 |}) cmds) |}.
 
-(* well-formed commands: a blocking pop names at least one key; RPOPLPUSH k k (which waits for the
-   lock it holds, a C06 finding) is excluded *)
+(* well-formed commands: a blocking pop names at least one key *)
 Definition wf_cmd (c : bcmd) : bool :=
   match c with
   | BBlock _ ks _ => negb (match ks with [] => true | _ => false end)
-  | BMove a b => negb (Nat.eqb a b)
   | _ => true
   end.
 
